@@ -41,17 +41,17 @@ theorem stop_handler_restores (c : Hid.Cfg) (sn : Hid.Snap) (hm : c.mode = some 
 inside it, the frame pointer, the array pointer and every byte at and above the frame pointer
 are exactly what they were on entry; control is at the end of the list or at the caller's
 return address.  (`Core.Keep w m m' F`: same size, same `fp`, same `ap`, same bytes from `F` up.) -/
-theorem core_scope_exit_restores_frame {p : Prog} {ck : Bool} {B : Nat} {fa : Core.FAddr} {fns : List Core.FDecl}
-    (lib : Placed p B) (fok : Core.FnsOK p ck B fa fns) (fuel F D ra : Nat) (hra : ra < 256 ^ p.w)
-    (lp : Nat × Nat) (hlp : lp.1 < 256 ^ p.w ∧ lp.2 < 256 ^ p.w) (s : Core.S) (Γ : Core.Gam) (env : Core.Env) (pc o : Nat) (m : Mem) (env' : Core.Env) (tr : List Ev) (res : Core.Res)
-    (hpl : PlacedAt p pc (Core.cS (Core.cxOf p ck B) fa lp Γ pc o s))
-    (hB : pc + (Core.cS (Core.cxOf p ck B) fa lp Γ pc o s).length ≤ B)
-    (hinv : Core.SInv p Γ env m F D o ra) (hd : Core.Disj p.w Γ) (hwf : Core.wfS (Γ.map Prod.fst) s = true)
+theorem core_scope_exit_restores_frame {p : Prog} {ck : Bool} {B dA : Nat} {fa : Core.FAddr} {fns : List Core.FDecl}
+    (lib : Placed p B) (fok : Core.FnsOK p ck B dA fa fns) (fuel F D ra : Nat) (hra : ra < 256 ^ p.w)
+    (lp : Core.Jt) (hlp : lp.cont < 256 ^ p.w ∧ lp.brk < 256 ^ p.w) (hvd : lp.vd = false) (s : Core.S) (Γ : Core.Gam) (env : Core.Env) (pc o : Nat) (m : Mem) (env' : Core.Env) (tr : List Ev) (res : Core.Res)
+    (hpl : PlacedAt p pc (Core.cS (Core.cxOf p ck B dA) fa lp Γ pc o s))
+    (hB : pc + (Core.cS (Core.cxOf p ck B dA) fa lp Γ pc o s).length ≤ B)
+    (hinv : Core.SInv p .plain Γ env m F D o ra) (hd : Core.Disj p.w Γ) (hwf : Core.wfS false (Γ.map Prod.fst) s = true)
     (hpk : Core.pkS p.w o s ≤ D) (ho : p.w ≤ o) (hnt : Core.noTry s = true)
     (hex : Core.exec (256 ^ p.w) (8 * p.w) fns p.w fuel D o env s = some (env', tr, res))
     (hres : res = .norm ∨ res = .returned ∨ ∃ v, res = .retv v) :
     ∃ st', Reach (sphinx p) ⟨pc, m⟩ tr st' ∧ Core.Keep p.w m st'.mem F ∧ st'.mem.readLE p.w p.w = F ∧
-      (res = .norm → st'.pc = pc + (Core.cS (Core.cxOf p ck B) fa lp Γ pc o s).length) ∧ (res ≠ .norm → st'.pc = ra) :=
-  Core.core_frame_restored lib fok fuel F D ra hra lp hlp s Γ env pc o m env' tr res hpl hB hinv hd hwf hpk ho hnt hex hres
+      (res = .norm → st'.pc = pc + (Core.cS (Core.cxOf p ck B dA) fa lp Γ pc o s).length) ∧ (res ≠ .norm → st'.pc = ra) :=
+  Core.core_frame_restored lib fok fuel F D ra hra lp hlp hvd s Γ env pc o m env' tr res hpl hB hinv hd hwf hpk ho hnt hex hres
 
 end HidVerif.Props.C08
